@@ -79,7 +79,7 @@ var props = map[string]propCfg{
 	"C07": {kinds: "HXDUGA", oracle: false, rule: "distinct input strings, each compared in 5 contexts; non-trivial = contains '<' or '=' or '&'",
 		stream: func(c *corpus, r *rng, t string) *inputSet { return htmlAll(c, r, t, 1) }},
 	"C08": {kinds: "PV", oracle: true, rule: "distinct inputs; non-trivial = IsSQLi verdict true (the consistency clauses bind)",
-		stream: func(c *corpus, r *rng, t string) *inputSet { return sqlAll(c, r, t, 1) }},
+		stream: func(c *corpus, r *rng, t string) *inputSet { return verdictStream(c, r, t) }},
 	"C10": {kinds: "V", oracle: true, rule: "distinct base inputs, each with up to 6 case variants; non-trivial = has an ASCII letter outside exempt positions",
 		stream: func(c *corpus, r *rng, t string) *inputSet { return sqlAll(c, r, t, 1) }},
 	"C11": {kinds: "X", oracle: true, rule: "distinct base inputs with case variants and NUL insertions; non-trivial = contains a letter and '<' or '='",
